@@ -58,15 +58,18 @@ func parseFrugal(filePath string, visitedIncludes []string, cache map[string]*Fr
 		return nil, err
 	}
 
-	if contains(visitedIncludes, name) {
-		return nil, fmt.Errorf("Circular include: %s", append(visitedIncludes, name))
+	// A cycle is the same file appearing twice on the include stack; two
+	// different files may share a base name.
+	path := filepath.Clean(filePath)
+	if contains(visitedIncludes, path) {
+		return nil, fmt.Errorf("Circular include: %s", includeNames(append(visitedIncludes, path)))
 	}
 
 	if cached, ok := cache[filePath]; ok {
 		return cached, nil
 	}
 
-	visitedIncludes = append(visitedIncludes, name)
+	visitedIncludes = append(visitedIncludes, path)
 
 	parsed, err := ParseReader(filePath, file)
 	if err != nil {
@@ -119,6 +122,15 @@ func getName(f *os.File) (string, error) {
 		return "", fmt.Errorf("Invalid file: %s", f.Name())
 	}
 	return parts[0], nil
+}
+
+// includeNames maps file paths to the names the files are included under.
+func includeNames(paths []string) []string {
+	names := make([]string, len(paths))
+	for i, p := range paths {
+		names[i] = strings.Split(filepath.Base(p), ".")[0]
+	}
+	return names
 }
 
 func contains(arr []string, e string) bool {
